@@ -11,7 +11,7 @@ Input (TAB separated):
   4 banner   "-" = checkbanner not configured, else the marker text (the regexp is a plain word)
   5 vsys     target vsys names, comma separated
   6 faultAt  "-" or n: the request that would be the n-th line/HTTP request the device receives
-             (0-based) gets no answer
+             (0-based) gets no answer; "n+": that request and every later one
   7 plan     change commands separated by U+001F ("\n" inside a command written as \n)
   8… replies  key U+001F occurrence ("*" or n) U+001F reply
       key:   W | C | P | L:<literal> | A:<literal prefix> | X
@@ -79,8 +79,10 @@ def wireCount (hist : List Out) : Nat :=
     | .plan c => n + (c.splitOn "\n").length
     | o => if onWire o then n + 1 else n) 0
 
-def mkDev (entries : List Entry) (faultAt : Option Nat) : Dev := fun hist o =>
-  if onWire o && faultAt == some (wireCount hist) then .fault "injected" else
+def mkDev (entries : List Entry) (faultAt : Option Nat) (persistent : Bool) : Dev := fun hist o =>
+  if onWire o && (faultAt == some (wireCount hist) ||
+      (persistent && (faultAt.map fun k => decide (k ≤ wireCount hist)) == some true)) then
+    .fault "injected" else
   let k := keyOf o
   let n := (hist.filter fun h => keyOf h == k).length
   match entries.find? (fun e => e.key == k && e.occ == some n) with
@@ -126,7 +128,7 @@ def answer (line : String) : String :=
         parses := fun s => !contains s "%%BAD%%" }
       let env : Env := {
         cfg := cfg
-        dev := mkDev entries (if fault == "-" then none else fault.toNat?)
+        dev := mkDev entries (if fault == "-" then none else (fault.replace "+" "").toNat?) (fault.endsWith "+")
         plan := (if plan.isEmpty then [] else plan.splitOn us).map unesc }
       let f := runMain b env
       let kinds := String.join (f.trace.map fun o => kindLetter (kind b o))
